@@ -29,6 +29,14 @@ import Glom.Model.C02Prim
   Scalar arithmetic (ints of any size, bools, strs, floats by `float.hex()`) is the identity-free
   kernel of C02 (`Glom.C02.pvBin` / `pvUn`): it has no access to the heap at all.
 
+  Where glom stores into an object — `ret[field] = val` in `_handle_dict`, `ret.append(val)` in
+  `_handle_list`, `result.update(…)` / `result.extend(…)` in `_ArgValuator.mode` — the model stores
+  into the heap cell (`Heap.set`), in the order of the code (the container is created *before* its
+  members are evaluated).  `Call` specs and plain callable specs name the callables of a small
+  catalogue; one of them (`append9`) writes its argument: the mutating user callable the property
+  excludes (`Sp.pureCalls`).  So the frame theorem is not a consequence of an immutable store: the
+  model can and does write, and the theorem says *where*.
+
   The state is the heap alone.  Everything is total, computable, structurally recursive over the
   (mutual) syntax; an operation outside the modelled domain ends with `Err6.unsupported` and the
   driver then does not compare the model's outcome (the frame theorem holds for it all the same).
@@ -261,11 +269,12 @@ inductive TOp where
 mutual
 /-- a spec object, as `_glom` / `arg_val` distinguish them -/
 inductive Sp where
-  | lit (v : Val)                             -- any other object (a scalar, the spec's own bytearray …)
+  | lit (v : Val)                             -- any other object (a scalar, the spec's own bytearray, a callable …)
   | t (steps : Steps)                         -- a `TType` rooted at `T` with its flat `__ops__`
   | seq (k : SeqKind) (xs : Sps)              -- a `list` / `tuple` / `set` / `frozenset` literal
   | dict (es : Pairs)                         -- a `dict` literal
   | coalesce (subs : Sps) (hasDefault : Bool) (dflt : Sp)   -- `Coalesce(*subs[, default=dflt])`
+  | call (fn : String) (args : Sps)           -- `Call(<catalogue callable fn>, args=(…))`
 inductive Sps where
   | nil
   | cons (x : Sp) (r : Sps)
@@ -295,9 +304,16 @@ def guard6 (r : Res) : Out :=
   | .error e => if e == C02.unsupported then (.error .unsupported, r.2)
                 else (.error (.glom "PathAccessError"), r.2)
 
-/-- an exception raised outside every `try` of glom (building the rebuilt argument) -/
-def raise6 (h : Heap) (e : PyExc) : Out :=
-  if e == C02.unsupported then (.error .unsupported, h) else (.error (.raised e.cls), h)
+/-- an exception raised outside every `try` of glom (building the rebuilt argument, inside a callable) -/
+def raiseErr (e : PyExc) : Err6 := if e == C02.unsupported then .unsupported else .raised e.cls
+
+def raise6 (h : Heap) (e : PyExc) : Out := (.error (raiseErr e), h)
+
+/-- the same for a Python-level result -/
+def raw6 (r : Res) : Out :=
+  match r.1 with
+  | .ok v => (.ok v, r.2)
+  | .error e => raise6 r.2 e
 
 /-- one branch of the dispatch chain of `_t_eval`, on the already evaluated argument -/
 def applyOp (op : TOp) (h : Heap) (cur arg : Val) : Out :=
@@ -306,7 +322,34 @@ def applyOp (op : TOp) (h : Heap) (cur arg : Val) : Out :=
   | .bin b => guard6 (aBin b h cur arg)
   | .un u => guard6 (aUn u h cur)
 
-/-- `type(spec)([recur(v) for v in spec])` / `result.extend([...])`: the rebuilt container, a new object -/
+/-! ### writes: the statements of glom that store into an object — always one this evaluation created -/
+
+/-- `ret[field] = val` (`_handle_dict`) -/
+def dictStore (h : Heap) (r : Nat) (k v : Val) : Heap :=
+  match h[r]? with
+  | some (.dict c es) => h.set r (.dict c (dictPut es k v))
+  | _ => h
+
+/-- `result.update({…})` (`_ArgValuator.mode`) -/
+def dictUpdate (h : Heap) (r : Nat) (kvs : List (Val × Val)) : Heap :=
+  match h[r]? with
+  | some (.dict c es) => h.set r (.dict c (dictMerge es kvs))
+  | _ => h
+
+/-- `ret.append(val)` (`_handle_list`) -/
+def listAppend (h : Heap) (r : Nat) (v : Val) : Heap :=
+  match h[r]? with
+  | some (.list c xs) => h.set r (.list c (xs ++ [v]))
+  | _ => h
+
+/-- `result.extend([…])` (`_ArgValuator.mode`) -/
+def listExtend (h : Heap) (r : Nat) (vs : List Val) : Heap :=
+  match h[r]? with
+  | some (.list c xs) => h.set r (.list c (xs ++ vs))
+  | _ => h
+
+/-- `type(spec)([recur(v) for v in spec])` for a tuple / set / frozenset literal: a new object, built
+    after its members are evaluated (a list literal is built before them: `evalArg`) -/
 def mkSeq (k : SeqKind) (h : Heap) (vs : List Val) : Out :=
   match k with
   | .list => (.ok (.ref h.length), h ++ [.list "list" vs])
@@ -317,12 +360,6 @@ def mkSeq (k : SeqKind) (h : Heap) (vs : List Val) : Out :=
   | .fset => (match keysCheck h vs with
     | some e => raise6 h e
     | none => (.ok (.ref h.length), h ++ [.set "frozenset" (dedupK [] vs)]))
-
-/-- `{k: v …}` from evaluated pairs: a new dict (later equal keys replace the value) -/
-def mkDict6 (h : Heap) (kvs : List (Val × Val)) : Out :=
-  match keysCheck h (kvs.map (·.1)) with
-  | some e => raise6 h e
-  | none => (.ok (.ref h.length), h ++ [.dict "dict" (dictMerge [] kvs)])
 
 /-- what the default `iterate` handler (`iter`) yields for a target, as far as its order is
     defined by the object (a set's order is CPython's business) -/
@@ -336,16 +373,91 @@ def iterItems (h : Heap) (v : Val) : Except Err6 (List Val) :=
   | .scalar _ => .error (.glom "UnregisteredTarget")
   | .other => .error .unsupported
 
-/-- run an evaluation on every item, each in the heap the previous one left -/
-def mapRun (f : Val → Heap → Out) : List Val → Heap → Except Err6 (List Val) × Heap
-  | [], h => (.ok [], h)
-  | x :: r, h =>
+/-- `for t in iterator: val = scope[glom](t, subspec, scope); ret.append(val)`: the list at address `r`
+    grows by one item per iteration, each item evaluated in the heap the previous iteration left -/
+def mapInto (f : Val → Heap → Out) (r : Nat) : List Val → Heap → Option Err6 × Heap
+  | [], h => (none, h)
+  | x :: rest, h =>
     match f x h with
-    | (.error e, h1) => (.error e, h1)
-    | (.ok v, h1) =>
-      match mapRun f r h1 with
-      | (.ok vs, h2) => (.ok (v :: vs), h2)
-      | (.error e, h2) => (.error e, h2)
+    | (.error e, h1) => (some e, h1)
+    | (.ok v, h1) => mapInto f r rest (listAppend h1 r v)
+
+/-! ### the catalogue of callables (what a `Call` spec or a plain callable spec may name)
+
+  `len`, `ident` (`lambda x: x`), `first` (`lambda x: x[0]`), `wrap` (`lambda x: [x]`), `pair`
+  (`lambda a, b: [a, b]`), `list`, `tuple` read their arguments and build at most one new object.
+  `append9` (`lambda x: x.append(9) or x`) is the *mutating user callable* the property text
+  excludes: it writes the object it is handed. -/
+
+def pureFn (name : String) : Bool := name != "append9"
+
+/-- is the value of a call of `name` a scalar or an object the call created? -/
+def fnNew (name : String) : Bool := name == "len" || name == "wrap" || name == "pair" || name == "list" || name == "tuple"
+
+def copyItems (h : Heap) (x : Val) : Except PyExc (List Val) :=
+  match shapeOf h x with
+  | .list xs => .ok xs
+  | .tuple xs => .ok xs
+  | .bytes xs => .ok xs
+  | .dict es => .ok (es.map (·.1))
+  | .set _ _ => .error C02.unsupported
+  | .scalar (.str _) => .error C02.unsupported
+  | .scalar _ => .error C02.tyErr
+  | .other => .error C02.unsupported
+
+def lenOf (h : Heap) (x : Val) : Except PyExc Val :=
+  match shapeOf h x with
+  | .list xs => .ok (.int xs.length)
+  | .tuple xs => .ok (.int xs.length)
+  | .bytes xs => .ok (.int xs.length)
+  | .set _ xs => .ok (.int xs.length)
+  | .dict es => .ok (.int es.length)
+  | .scalar (.str x) => .ok (.int x.length)
+  | .scalar _ => .error C02.tyErr
+  | .other => .error C02.unsupported
+
+/-- `fn(*args)`; an exception of the callable leaves glom as it is -/
+def callFn6 (name : String) (h : Heap) (args : List Val) : Out :=
+  if name == "len" then
+    (match args with
+    | [x] => raw6 (lenOf h x, h)
+    | _ => (.error (.raised "TypeError"), h))
+  else if name == "ident" then
+    (match args with
+    | [x] => (.ok x, h)
+    | _ => (.error (.raised "TypeError"), h))
+  else if name == "first" then
+    (match args with
+    | [x] => raw6 (aGetitem h x (.int 0))
+    | _ => (.error (.raised "TypeError"), h))
+  else if name == "wrap" then
+    (match args with
+    | [x] => (.ok (.ref h.length), h ++ [.list "list" [x]])
+    | _ => (.error (.raised "TypeError"), h))
+  else if name == "pair" then
+    (match args with
+    | [x, y] => (.ok (.ref h.length), h ++ [.list "list" [x, y]])
+    | _ => (.error (.raised "TypeError"), h))
+  else if name == "list" then
+    (match args with
+    | [x] => (match copyItems h x with
+      | .ok xs => (.ok (.ref h.length), h ++ [.list "list" xs])
+      | .error e => raise6 h e)
+    | _ => (.error .unsupported, h))
+  else if name == "tuple" then
+    (match args with
+    | [x] => (match copyItems h x with
+      | .ok xs => (.ok (.ref h.length), h ++ [.tuple "tuple" xs])
+      | .error e => raise6 h e)
+    | _ => (.error .unsupported, h))
+  else if name == "append9" then
+    (match args with
+    | [.ref a] => (match h[a]? with
+      | some (.list c xs) => (.ok (.ref a), h.set a (.list c (xs ++ [.int 9])))     -- writes its argument
+      | _ => (.error (.raised "AttributeError"), h))
+    | [_] => (.error (.raised "AttributeError"), h)
+    | _ => (.error (.raised "TypeError"), h))
+  else (.error .unsupported, h)
 
 mutual
 /-- `arg_val(target, spec, scope)`: argument mode (`sp` first: the other arguments are what the
@@ -354,20 +466,35 @@ def evalArg : Sp → Val → Heap → Out
   | .lit v, _, h => (.ok v, h)
   | .t steps, tgt, h => tLoop steps tgt tgt h
   | .seq k xs, tgt, h =>
-    (match evalArgs xs tgt h with
-    | (.ok vs, h1) => mkSeq k h1 vs
-    | (.error e, h1) => (.error e, h1))
+    (match k with
+    | .list =>
+      -- `result = self.cache[id(spec)] = type(spec)()` FIRST, then `result.extend([recur(val) …])`
+      (match evalArgs xs tgt (h ++ [.list "list" []]) with
+      | (.ok vs, h1) => (.ok (.ref h.length), listExtend h1 h.length vs)
+      | (.error e, h1) => (.error e, h1))
+    | _ =>
+      (match evalArgs xs tgt h with
+      | (.ok vs, h1) => mkSeq k h1 vs
+      | (.error e, h1) => (.error e, h1)))
   | .dict es, tgt, h =>
-    (match evalArgPairs es tgt h with
-    | (.ok kvs, h1) => mkDict6 h1 kvs
+    -- `result = type(spec)()`, then `result.update({recur(key): recur(val) …})`
+    (match evalArgPairs es tgt (h ++ [.dict "dict" []]) with
+    | (.ok kvs, h1) => (.ok (.ref h.length), dictUpdate h1 h.length kvs)
     | (.error e, h1) => (.error e, h1))
   | .coalesce subs hd d, tgt, h =>
     (match coalesceRun subs tgt h with
     | (some r, h1) => (r, h1)
     | (none, h1) => if hd then evalArg d tgt h1 else (.error (.glom "CoalesceError"), h1))
+  | .call fn args, tgt, h =>
+    (match evalArgs args tgt h with
+    | (.ok vs, h1) => callFn6 fn h1 vs
+    | (.error e, h1) => (.error e, h1))
 /-- `_glom(target, spec, scope)` in the default mode `AUTO` -/
 def evalAuto : Sp → Val → Heap → Out
-  | .lit _, _, h => (.error .unsupported, h)         -- a string path / a callable: C01's, C03's
+  | .lit v, tgt, h =>
+    (match v with
+    | .fn name => callFn6 name h [tgt]               -- `elif callable(spec): return spec(target)`
+    | _ => (.error .unsupported, h))                  -- a string path: C01's
   | .t steps, tgt, h => tLoop steps tgt tgt h
   | .seq k xs, tgt, h =>
     (match k with
@@ -376,13 +503,18 @@ def evalAuto : Sp → Val → Heap → Out
     | .set => (.error .unsupported, h)
     | .fset => (.error .unsupported, h))
   | .dict es, tgt, h =>
-    (match evalAutoPairs es tgt h with
-    | (.ok kvs, h1) => mkDict6 h1 kvs
-    | (.error e, h1) => (.error e, h1))
+    -- `ret = type(spec)()`, then per field `ret[field] = val`
+    (match autoPairs es tgt h.length (h ++ [.dict "dict" []]) with
+    | (none, h1) => (.ok (.ref h.length), h1)
+    | (some e, h1) => (.error e, h1))
   | .coalesce subs hd d, tgt, h =>
     (match coalesceRun subs tgt h with
     | (some r, h1) => (r, h1)
     | (none, h1) => if hd then evalArg d tgt h1 else (.error (.glom "CoalesceError"), h1))
+  | .call fn args, tgt, h =>
+    (match evalArgs args tgt h with
+    | (.ok vs, h1) => callFn6 fn h1 vs
+    | (.error e, h1) => (.error e, h1))
 /-- `[recur(v) for v in spec]` -/
 def evalArgs : Sps → Val → Heap → Except Err6 (List Val) × Heap
   | .nil, _, h => (.ok [], h)
@@ -393,7 +525,8 @@ def evalArgs : Sps → Val → Heap → Except Err6 (List Val) × Heap
       match evalArgs r tgt h1 with
       | (.ok vs, h2) => (.ok (v :: vs), h2)
       | (.error e, h2) => (.error e, h2))
-/-- `{recur(key): recur(val) for key, val in spec.items()}`: key, then value -/
+/-- `{recur(key): recur(val) for key, val in spec.items()}`: per entry the key, then the value, then the
+    key is hashed (TypeError for an unhashable one, before the following entries are evaluated) -/
 def evalArgPairs : Pairs → Val → Heap → Except Err6 (List (Val × Val)) × Heap
   | .nil, _, h => (.ok [], h)
   | .cons k v r, tgt, h =>
@@ -403,22 +536,26 @@ def evalArgPairs : Pairs → Val → Heap → Except Err6 (List (Val × Val)) ×
       match evalArg v tgt h1 with
       | (.error e, h2) => (.error e, h2)
       | (.ok vv, h2) =>
-        match evalArgPairs r tgt h2 with
-        | (.ok kvs, h3) => (.ok ((kv, vv) :: kvs), h3)
-        | (.error e, h3) => (.error e, h3))
-/-- `_handle_dict`: per field the value (AUTO), then the field when it is a `T` -/
-def evalAutoPairs : Pairs → Val → Heap → Except Err6 (List (Val × Val)) × Heap
-  | .nil, _, h => (.ok [], h)
-  | .cons k v r, tgt, h =>
+        match keyCheck h2 kv with
+        | some e => (.error (raiseErr e), h2)
+        | none =>
+          match evalArgPairs r tgt h2 with
+          | (.ok kvs, h3) => (.ok ((kv, vv) :: kvs), h3)
+          | (.error e, h3) => (.error e, h3))
+/-- `_handle_dict`: per field the value (AUTO), then the field when it is a `T`, then `ret[field] = val`
+    into the dict at address `r` -/
+def autoPairs : Pairs → Val → Nat → Heap → Option Err6 × Heap
+  | .nil, _, _, h => (none, h)
+  | .cons k v rest, tgt, r, h =>
     (match evalAuto v tgt h with
-    | (.error e, h1) => (.error e, h1)
+    | (.error e, h1) => (some e, h1)
     | (.ok vv, h1) =>
       match fieldRun k tgt h1 with
-      | (.error e, h2) => (.error e, h2)
+      | (.error e, h2) => (some e, h2)
       | (.ok kv, h2) =>
-        match evalAutoPairs r tgt h2 with
-        | (.ok kvs, h3) => (.ok ((kv, vv) :: kvs), h3)
-        | (.error e, h3) => (.error e, h3))
+        match keyCheck h2 kv with
+        | some e => (some (raiseErr e), h2)
+        | none => autoPairs rest tgt r (dictStore h2 r kv vv))
 /-- `if type(field) in (Spec, TType): field = scope[glom](target, field, scope)` -/
 def fieldRun : Sp → Val → Heap → Out
   | .lit v, _, h => (.ok v, h)
@@ -426,7 +563,8 @@ def fieldRun : Sp → Val → Heap → Out
   | .seq _ _, _, h => (.error .unsupported, h)
   | .dict _, _, h => (.error .unsupported, h)
   | .coalesce _ _ _, _, h => (.error .unsupported, h)
-/-- `_handle_list`: `[sub]` maps `sub` over the items of the target into a new list -/
+  | .call _ _, _, h => (.error .unsupported, h)
+/-- `_handle_list`: `[sub]`: `ret = []`, then `sub` on every item of the target, appended to `ret` -/
 def listRun : Sps → Val → Heap → Out
   | .nil, _, h => (.error .unsupported, h)
   | .cons sub r, tgt, h =>
@@ -435,9 +573,9 @@ def listRun : Sps → Val → Heap → Out
       (match iterItems h tgt with
       | .error e => (.error e, h)
       | .ok items =>
-        match mapRun (evalAuto sub) items h with
-        | (.ok vs, h1) => (.ok (.ref h1.length), h1 ++ [.list "list" vs])
-        | (.error e, h1) => (.error e, h1))
+        match mapInto (evalAuto sub) h.length items (h ++ [.list "list" []]) with
+        | (none, h1) => (.ok (.ref h.length), h1)
+        | (some e, h1) => (.error e, h1))
     | .cons _ _ => (.error .unsupported, h))
 /-- `_handle_tuple`: the result of a step is the target of the next -/
 def chainRun : Sps → Val → Heap → Out
@@ -467,6 +605,26 @@ def tLoop : Steps → Val → Val → Heap → Out
       match applyOp op h1 cur av with
       | (.ok v, h2) => tLoop r tgt v h2
       | (.error e, h2) => (.error e, h2))
+end
+
+mutual
+/-- does the spec name only callables that do not write their arguments? ("no mutating user callable") -/
+def Sp.pureCalls : Sp → Bool
+  | .lit v => (match v with | .fn name => pureFn name | _ => true)
+  | .t steps => steps.pureCalls
+  | .seq _ xs => xs.pureCalls
+  | .dict es => es.pureCalls
+  | .coalesce subs _ d => subs.pureCalls && d.pureCalls
+  | .call fn args => pureFn fn && args.pureCalls
+def Sps.pureCalls : Sps → Bool
+  | .nil => true
+  | .cons x r => x.pureCalls && r.pureCalls
+def Pairs.pureCalls : Pairs → Bool
+  | .nil => true
+  | .cons k v r => k.pureCalls && v.pureCalls && r.pureCalls
+def Steps.pureCalls : Steps → Bool
+  | .nil => true
+  | .cons _ a r => a.pureCalls && r.pureCalls
 end
 
 /-- does the T expression end with an arithmetic operation (whose container result Python builds anew)? -/
